@@ -364,7 +364,8 @@ func (m *Machine) now() value {
 	if cs.cur == nil {
 		cs.cur = clockBaseMs
 	}
-	if !cs.symbolic {
+	if !cs.symbolic || cs.maxStep < 0 {
+		// fixed 1 ms tick per clock read (maxStep < 0: only sleep jitters are symbolic)
 		cs.cur = m.add64(cs.cur, int64(1))
 		return cs.cur
 	}
